@@ -916,6 +916,24 @@ fn gen_plant(g: &mut G, files: &mut Vec<FileGen>, pfile: usize, avoid_known: boo
             let defs: Vec<(String, String)> =
                 files[pfile].pieces.iter().filter(|pc| pc.shape.is_none()).flat_map(|pc| pc.defines.iter().map(move |(n, _)| (n.clone(), pc.role.clone()))).collect();
             if g.t.chance(1, 6) {
+                // a member name twice inside a declaration laid out one member per line: the planted line is the repetition
+                let (open, before, bad, good, after, close, sp): (String, Vec<&str>, &str, &str, Vec<&str>, &str, &str) = match g.t.below(3) {
+                    0 => (format!("Zd{} :: enum", k), vec!["Aa,", "Bb int,"], "Aa,", "Dd,", vec!["Cc,"], "end", "variant"),
+                    1 => (format!("Zd{} :: enum", k), vec!["Aa,", "Bb int,"], "Aa str,", "Dd str,", vec!["Cc,"], "end", "variant-payload"),
+                    _ => (format!("Zd{} :: blob {{", k), vec!["a: int,", "b: str,"], "a: int,", "d: int,", vec!["c: int,"], "}", "field"),
+                };
+                let mut o = vec![open];
+                o.extend(before.iter().map(|l| format!("    {}", l)));
+                let mut c: Vec<String> = after.iter().map(|l| format!("    {}", l)).collect();
+                c.push(close.to_string());
+                p.wraps.push(Wrap { kind: "declaration-lines".into(), open: o, close: c, inner: 1 });
+                p.spelling = format!("member-twice-multiline-{}", sp);
+                p.twin = good.to_string();
+                p.line = bad.to_string();
+                decorate(g, &mut p);
+                p.trailer.clear();
+                return p;
+            } else if g.t.chance(1, 6) {
                 // a name twice inside one declaration
                 p.spelling = "member-twice".into();
                 p.line = match g.t.below(3) {
